@@ -345,6 +345,17 @@ var rR20b = RuleRef{Name: "R20b", Doc: "an emptied container ceases to exist: af
 					killKey(s, canon(a.Key))
 				}
 			}
+			// a growing mutator (insert/add/push) on the same container leaves it non-empty
+			if x, ok := in.(*ssa.Call); ok {
+				if cf := callee(x); cf != nil && firstParty(cf) && !(shr[cf] || shr[origin(cf)]) && len(x.Call.Args) > 0 {
+					if _, isCont := c.containerType(x.Call.Args[0].Type()); isCont && c.mutates(cf, 0) {
+						ks, _ := c.originKeys(x.Call.Args[0])
+						for _, k := range ks {
+							killKey(s, k)
+						}
+					}
+				}
+			}
 			for _, st := range sites {
 				if st.in == in {
 					s[siteID(st)] = true
